@@ -147,7 +147,7 @@ def theEnv : Env := genEnv
 
 def trigName : TrigId → String
   | .D1 => "D1" | .D2 => "D2" | .D3 => "D3" | .D4 => "D4" | .D5 => "D5" | .D6 => "D6" | .D7 => "D7"
-  | .D8 => "D8" | .D9a => "D9a" | .D9b => "D9b"
+  | .D8 => "D8" | .D9a => "D9a" | .D9b => "D9b" | .D16 => "D16"
 
 /-- re-run the block's transactions, reporting the triggers met by the successful ones -/
 def trigLines (env : Env) (s0 : App) (b : Block) : List String := Id.run do
@@ -155,7 +155,7 @@ def trigLines (env : Env) (s0 : App) (b : Block) : List String := Id.run do
   let s2 := match App.slashingBegin b.votes s1 with | .ok s => s | .error _ => s1
   let mut s := match App.poaBegin env.lim s2 with | .ok s => s | .error _ => s2
   let mut incs : List (Signer × Nat) := []
-  let mut res : List String := []
+  let mut res : List String := if Trig.lastValidatorJailed s1 s2 then ["TRIG -1 D16"] else []
   let mut i := 0
   for tx in b.txs do
     let pre := s
